@@ -27,6 +27,14 @@ REQUIRED = ['distance_bin/distances', 'distance_wei/distances', 'distance_wei/ho
 CASE_TIMEOUT = {'quick': 30.0, 'thorough': 120.0}
 
 
+
+def _cc_und(rs, n, binary=False, p=.15):
+    A = np.triu((rs.rand(n, n) < p).astype(float), 1)
+    A[np.arange(n - 1), np.arange(1, n)] = 1      # a spanning path keeps it connected
+    W = A if binary else A * (rs.rand(n, n) * .9 + .1)
+    return W + W.T
+
+
 def cases(tier, seed):
     thorough = tier == 'thorough'
     out = []
@@ -58,6 +66,7 @@ def cases(tier, seed):
     for g in G.many_paths(200 if thorough else 131):
         out.append({'g': g, 'directed': g[-1] is True, 'ws': 1, 'schemes': ['bin', 'int']})
     out.append({'kind': 'degenerate', 'g': ['named', 'path', 2], 'directed': False, 'ws': 0, 'schemes': []})
+    out.append({'kind': 'concurrent', 'g': ['named', 'path', 2], 'directed': False, 'ws': seed, 'schemes': [], 'n': 110 if tier == 'thorough' else 60})
     return out
 
 
@@ -251,6 +260,10 @@ def check_weights(REC, bct, A, W, directed):
 
 
 def run(case, bct, REC):
+    if case.get('kind') == 'concurrent':
+        from .common import concurrent_callers_agree
+        REC.tag(PROP, 'exec')
+        return concurrent_callers_agree(REC, PROP, bct, [('distance_bin', lambda rs, n: (_cc_und(rs, n, True),)), ('distance_wei', lambda rs, n: (_cc_und(rs, n),)), ('distance_wei_floyd', lambda rs, n: (_cc_und(rs, n),)), ('efficiency_wei', lambda rs, n: (_cc_und(rs, n),))], case['n'], case['ws'])
     if case.get('kind') == 'degenerate':
         from .common import degenerate_sizes
         REC.tag(PROP, 'exec')
